@@ -98,6 +98,62 @@ func sameSet(a, b []bool) (bool, string) {
 }
 
 // parsePatternCall: "geom.relateMatchesAnyPattern($0,$1,["p1"|"p2"])#0" -> patterns, operand order ok
+// globalStringList: the constant strings the package initialiser stores into the
+// package-level []string variable name (a composite literal), in order.
+func globalStringList(p *Program, pkg, name string) ([]string, bool) {
+	sp := p.SPkgs[pkg]
+	if sp == nil {
+		return nil, false
+	}
+	g, ok := sp.Members[name].(*ssa.Global)
+	if !ok {
+		return nil, false
+	}
+	initf := sp.Func("init")
+	if initf == nil {
+		return nil, false
+	}
+	var out []string
+	found := false
+	eachInstr(initf, func(in ssa.Instruction) {
+		st, ok := in.(*ssa.Store)
+		if !ok || st.Addr != ssa.Value(g) {
+			return
+		}
+		sl, ok := st.Val.(*ssa.Slice)
+		if !ok {
+			return
+		}
+		al, ok := sl.X.(*ssa.Alloc)
+		if !ok {
+			return
+		}
+		vals := map[int64]string{}
+		for _, r := range *al.Referrers() {
+			ia, ok := r.(*ssa.IndexAddr)
+			if !ok {
+				continue
+			}
+			i, ok := constInt(ia.Index)
+			if !ok {
+				continue
+			}
+			for _, rr := range *ia.Referrers() {
+				if s2, ok := rr.(*ssa.Store); ok && s2.Addr == ssa.Value(ia) {
+					if str, ok := constString(s2.Val); ok {
+						vals[i] = str
+					}
+				}
+			}
+		}
+		for i := int64(0); i < int64(len(vals)); i++ {
+			out = append(out, vals[i])
+		}
+		found = len(vals) > 0
+	})
+	return out, found
+}
+
 func parsePatternCall(s string) ([]string, bool) {
 	const pre = "geom.relateMatchesAnyPattern($0,$1,["
 	if !strings.HasPrefix(s, pre) {
@@ -198,6 +254,21 @@ func runC02Patterns(c *Ctx) {
 					problem = fmt.Sprintf("returns false for dimensions (%d,%d) where the definition applies pattern(s) %v", dA, dB, want)
 					return false
 				}
+				// a pattern list kept in a package-level variable: its contents are what the
+				// package initialiser stores there (and nothing else may write it, C10.global)
+				if i := strings.Index(got, "global:"); i >= 0 {
+					j := i + len("global:")
+					for j < len(got) && (got[j] == '_' || got[j] >= '0' && got[j] <= '9' || got[j] >= 'a' && got[j] <= 'z' || got[j] >= 'A' && got[j] <= 'Z') {
+						j++
+					}
+					if lst, ok := globalStringList(c.P, "geom", got[i+len("global:"):j]); ok {
+						var q []string
+						for _, x := range lst {
+							q = append(q, "\""+x+"\"")
+						}
+						got = got[:i] + "[" + strings.Join(q, "|") + "]" + got[j:]
+					}
+				}
 				pats, ok := parsePatternCall(got)
 				if !ok {
 					problem = fmt.Sprintf("returns %s instead of matching Relate(a,b) against DE-9IM patterns (operands in order a,b)", trunc(got))
@@ -258,20 +329,27 @@ func runC02Matcher(c *Ctx) {
 		}
 		c.Check(got == want[m], f.Pos(), fn, construct, "accepts exactly {"+want[m]+"}", fmt.Sprintf("accepts {%s}, the DE-9IM semantics require {%s}", got, want[m]))
 	}
-	// length checks dominate the loop
-	okLen := 0
-	eachInstr(f, func(in ssa.Instruction) {
-		if ifi, ok := in.(*ssa.If); ok {
-			if bo, ok := ifi.Cond.(*ssa.BinOp); ok && bo.Op == token.NEQ {
-				if _, isLen := lenOf(bo.X); isLen {
-					if k, ok := constInt(bo.Y); ok && k == 9 {
-						okLen++
-					}
-				}
-			}
+	// strings of the wrong length are refused with an error (not a panic, not an answer):
+	// RelateMatches interpreted on matrices and patterns of 0, 8 and 10 characters
+	bad, undecLen := "", ""
+	for _, lens := range [][2]int{{8, 9}, {9, 8}, {10, 9}, {9, 10}, {0, 9}, {9, 0}} {
+		mdl := &Model{Num: map[string]float64{}, Bool: map[string]bool{}, Missing: map[string]bool{}}
+		it := &k4interp{p: c.P, m: mdl, mem: map[string]k4val{}}
+		res, err := it.call(f, []k4val{{kind: 4, s: strings.Repeat("F", lens[0])}, {kind: 4, s: strings.Repeat("*", lens[1])}}, nil)
+		switch {
+		case err != nil && strings.Contains(err.Error(), "out of range"):
+			bad = fmt.Sprintf("a matrix of %d and a pattern of %d characters are indexed out of range (a panic) instead of being refused", lens[0], lens[1])
+		case err != nil || len(res) != 2:
+			undecLen = fmt.Sprintf("lengths %v: %v %v %s", lens, err, res, trunc(missingList(mdl)))
+		case res[1].String() == "nil":
+			bad = fmt.Sprintf("a matrix of %d and a pattern of %d characters are accepted without an error (answer %s)", lens[0], lens[1], res[0].String())
 		}
-	})
-	c.Check(okLen >= 2, f.Pos(), fn, "length checks", "both strings are checked to have length 9", "a length check on the matrix or the pattern is missing (index out of range on short input)")
+	}
+	if undecLen != "" {
+		c.Undecided(f.Pos(), fn, "length checks", "cannot interpret: "+undecLen)
+	} else {
+		c.Check(bad == "", f.Pos(), fn, "length checks", "strings that are not 9 characters long are refused with an error", bad)
+	}
 }
 
 func runC02Matrix(c *Ctx) {
